@@ -131,4 +131,77 @@ theorem run_alpha_full {σs : String → String → String} {Ns : String → Lis
     (fuel : Nat) (entry : String) (eager : Bool) : run fuel (renP σs P) entry eager = run fuel P entry eager :=
   run_rel (hypC_hypV H) fuel entry eager
 
+/-! ### the closure-free theorem of round 1 is a special case -/
+
+mutual
+theorem scC_of_cf (m : String → Bool) : ∀ (e : Expr) (B : List String), cfE e = true → scE m B e = true → scC m B e = true
+  | .var x t, B, _, hs => by simpa only [scE, scC] using hs
+  | .prim _, _, _, _ => by simp only [scC]
+  | .tag _ _, _, _, _ => by simp only [scC]
+  | .constr c t args, B, hc, hs => by
+    simp only [cfE, scE] at hc hs; simp only [scC]; exact scCL_of_cf m args B hc hs
+  | .tuple t items, B, hc, hs => by
+    simp only [cfE, scE] at hc hs; simp only [scC]; exact scCL_of_cf m items B hc hs
+  | .array t items, B, hc, hs => by
+    simp only [cfE, scE] at hc hs; simp only [scC]; exact scCL_of_cf m items B hc hs
+  | .closure t ps b, B, hc, _ => by simp [cfE] at hc
+  | .letE x v b, B, hc, hs => by
+    simp only [cfE, scE, Bool.and_eq_true] at hc hs; simp only [scC, Bool.and_eq_true]
+    exact ⟨scC_of_cf m v B hc.1 hs.1, scC_of_cf m b (x :: B) hc.2 hs.2⟩
+  | .matchE t s arms d, B, hc, hs => by
+    simp only [cfE, scE, Bool.and_eq_true] at hc hs; simp only [scC, Bool.and_eq_true]
+    exact ⟨⟨scC_of_cf m s B hc.1.1 hs.1.1, scCArms_of_cf m arms B hc.1.2 hs.1.2⟩, scCO_of_cf m d B hc.2 hs.2⟩
+  | .ite c t e, B, hc, hs => by
+    simp only [cfE, scE, Bool.and_eq_true] at hc hs; simp only [scC, Bool.and_eq_true]
+    exact ⟨⟨scC_of_cf m c B hc.1.1 hs.1.1, scC_of_cf m t B hc.1.2 hs.1.2⟩, scC_of_cf m e B hc.2 hs.2⟩
+  | .while c b, B, hc, hs => by
+    simp only [cfE, scE, Bool.and_eq_true] at hc hs; simp only [scC, Bool.and_eq_true]
+    exact ⟨scC_of_cf m c B hc.1 hs.1, scC_of_cf m b B hc.2 hs.2⟩
+  | .go e, B, hc, hs => by
+    simp only [cfE, scE] at hc hs; simp only [scC]; exact scC_of_cf m e B hc hs
+  | .cget c i t e, B, hc, hs => by
+    simp only [cfE, scE] at hc hs; simp only [scC]; exact scC_of_cf m e B hc hs
+  | .un op t e, B, hc, hs => by
+    simp only [cfE, scE] at hc hs; simp only [scC]; exact scC_of_cf m e B hc hs
+  | .bin op t l r, B, hc, hs => by
+    simp only [cfE, scE, Bool.and_eq_true] at hc hs; simp only [scC, Bool.and_eq_true]
+    exact ⟨scC_of_cf m l B hc.1 hs.1, scC_of_cf m r B hc.2 hs.2⟩
+  | .call t f args, B, hc, hs => by
+    simp only [cfE, scE, Bool.and_eq_true] at hc hs; simp only [scC, Bool.and_eq_true]
+    exact ⟨scC_of_cf m f B hc.1 hs.1, scCL_of_cf m args B hc.2 hs.2⟩
+  | .toDyn tr ft t e, B, hc, hs => by
+    simp only [cfE, scE] at hc hs; simp only [scC]; exact scC_of_cf m e B hc hs
+  | .dynCall tr mm t r args, B, hc, hs => by
+    simp only [cfE, scE, Bool.and_eq_true] at hc hs; simp only [scC, Bool.and_eq_true]
+    exact ⟨scC_of_cf m r B hc.1 hs.1, scCL_of_cf m args B hc.2 hs.2⟩
+  | .traitCall tr mm t r args, B, hc, hs => by
+    simp only [cfE, scE, Bool.and_eq_true] at hc hs; simp only [scC, Bool.and_eq_true]
+    exact ⟨scC_of_cf m r B hc.1 hs.1, scCL_of_cf m args B hc.2 hs.2⟩
+  | .proj i t e, B, hc, hs => by
+    simp only [cfE, scE] at hc hs; simp only [scC]; exact scC_of_cf m e B hc hs
+theorem scCL_of_cf (m : String → Bool) : ∀ (es : List Expr) (B : List String), cfL es = true → scL m B es = true → scCL m B es = true
+  | [], _, _, _ => by simp only [scCL]
+  | e :: es, B, hc, hs => by
+    simp only [cfL, scL, Bool.and_eq_true] at hc hs; simp only [scCL, Bool.and_eq_true]
+    exact ⟨scC_of_cf m e B hc.1 hs.1, scCL_of_cf m es B hc.2 hs.2⟩
+theorem scCArms_of_cf (m : String → Bool) : ∀ (arms : List Arm) (B : List String), cfArms arms = true → scArms m B arms = true → scCArms m B arms = true
+  | [], _, _, _ => by simp only [scCArms]
+  | a :: as, B, hc, hs => by
+    simp only [cfArms, scArms, Bool.and_eq_true] at hc hs; simp only [scCArms, Bool.and_eq_true]
+    exact ⟨scCArm_of_cf m a B hc.1 hs.1, scCArms_of_cf m as B hc.2 hs.2⟩
+theorem scCArm_of_cf (m : String → Bool) : ∀ (a : Arm) (B : List String), cfArm a = true → scArm m B a = true → scCArm m B a = true
+  | .mk l b, B, hc, hs => by
+    simp only [cfArm, scArm, Bool.and_eq_true] at hc hs; simp only [scCArm]
+    exact scC_of_cf m b B hc.2 hs
+theorem scCO_of_cf (m : String → Bool) : ∀ (d : Option Expr) (B : List String), cfO d = true → scO m B d = true → scCO m B d = true
+  | none, _, _, _ => by simp only [scCO]
+  | some e, B, hc, hs => by
+    simp only [cfO, scO] at hc hs; simp only [scCO]; exact scC_of_cf m e B hc hs
+end
+
+/-- the hypotheses of the closure-free theorem imply those of the theorem with closures -/
+theorem hyp_hypC {σs : String → String → String} {Ns : String → List String} {P : Prog} (H : Hyp σs Ns P) : HypC σs Ns P :=
+  ⟨H.inj, H.names, fun f hf => scC_of_cf _ f.body [] (by
+      have := H.cf; simp only [cfP, List.all_eq_true] at this; exact this f hf) (H.sc f hf)⟩
+
 end Goml.Alpha
